@@ -224,6 +224,79 @@ def match_known(known, prop, harness, v):
         return k
     return None
 
+
+# ------------------------------------------------------------------------------ compile repair
+ITEM_START = re.compile(r"^(pub(\((crate|super)\))? )?(unsafe )?(fn|static|const|struct|enum|impl|macro_rules!|type|mod)\b|^[a-z_0-9]+!\(")
+
+def _item_span(lines, ln):
+    """(start, end) 0-based inclusive of the top-level item of a harness file that contains line `ln` (1-based)."""
+    i = min(ln - 1, len(lines) - 1)
+    while i > 0 and not ITEM_START.match(lines[i]):
+        i -= 1
+    start = i
+    while start > 0 and re.match(r"^(#\[|///|#!\[)", lines[start - 1]):
+        start -= 1
+    depth, seen, j = 0, False, i
+    while j < len(lines):
+        code = re.sub(r'"(\\.|[^"\\])*"', '""', lines[j].split("//")[0])
+        for ch in code:
+            if ch in "{([":
+                depth += 1; seen = True
+            elif ch in "})]":
+                depth -= 1
+        if seen and depth <= 0:
+            break
+        if not seen and code.rstrip().endswith(";"):
+            break
+        j += 1
+    return start, min(j, len(lines) - 1)
+
+def _item_names(text):
+    ns = set(re.findall(r"^\s*(?:pub(?:\([a-z]+\))? )?fn (\w+)", text, re.M))
+    ns |= set(re.findall(r"^[a-z_0-9]+!\((\w+),", text, re.M))
+    return ns
+
+def repair_harness_sources(src, scratch, logf, removed):
+    """A change to mini-moka may alter the signature of an internal function that some harness calls: the
+    harness crate then does not build. Remove (in PRIVATE copies of the harness files, never in /verif)
+    the top-level items rustc reports errors in, so that the queries that still compile are decided.
+    Returns True when something was removed (rebuild), False when the build error is not repairable."""
+    txt = open(logf, errors="replace").read()
+    locs = re.findall(r"^error[^\n]*\n(?:[^\n]*\n)??\s+--> (\S+?):(\d+):\d+", txt, re.M)
+    kdir = os.path.join(VERIF, "kani")
+    pdir = os.path.join(scratch, "kani_priv")
+    byfile = {}
+    for f, ln in locs:
+        f = os.path.abspath(os.path.join(src, f)) if not os.path.isabs(f) else f
+        if f.startswith(kdir + os.sep) or f.startswith(pdir + os.sep):
+            byfile.setdefault(os.path.basename(f), set()).add(int(ln))
+    if not byfile:
+        return False
+    if not os.path.isdir(pdir):
+        shutil.copytree(kdir, pdir)
+        for root, _, files in os.walk(os.path.join(src, "src")):
+            for fn in files:
+                pth = os.path.join(root, fn)
+                body = open(pth).read()
+                if kdir in body:
+                    open(pth, "w").write(body.replace(kdir + "/", pdir + "/"))
+    changed = False
+    for fn, lns in byfile.items():
+        pth = os.path.join(pdir, fn)
+        lines = open(pth).read().split("\n")
+        kill = set()
+        for ln in lns:
+            a, b = _item_span(lines, ln)
+            if b - a > 400:
+                continue   # would remove a whole family's infrastructure: not a local repair
+            kill |= set(range(a, b + 1))
+        if kill:
+            removed |= _item_names("\n".join(lines[i] for i in sorted(kill)))
+            lines = [("" if i in kill else l) for i, l in enumerate(lines)]
+            open(pth, "w").write("\n".join(lines))
+            changed = True
+    return changed
+
 # ---------------------------------------------------------------------------------------- replay
 def concrete_playback(src, target, harness, timeout_s, mem_gb, logf, want=None):
     """Ask Kani for the concrete assignment of a failing harness; returns generated test source."""
@@ -271,6 +344,10 @@ def concrete_playback(src, target, harness, timeout_s, mem_gb, logf, want=None):
 def native_playback(src, harness, test_src, real_map, logf, hang_is_repro=False):
     """Insert the generated #[test] next to the harness and run it natively (cargo kani playback)."""
     hfile = families.harness_file(VERIF, harness)
+    # (after a compile repair the modules point at the repaired private copies)
+    _rep = os.path.join(os.path.dirname(src), "kani_priv", os.path.basename(hfile))
+    if os.path.exists(_rep):
+        hfile = _rep
     # work on a private copy of the harness file so that /verif stays untouched
     priv = os.path.join(os.path.dirname(src), "playback_" + os.path.basename(hfile))
     shutil.copy(hfile, priv)
@@ -393,6 +470,7 @@ def run(prop, a, seed, scratch, t_start):
     hjobs = max(1, min(jobs, 4 if a.tier == "quick" else 3))
     mem_gb = 20 if a.tier == "quick" else 40
     recs, err, wall = {}, None, 0.0
+    removed_items = set()
     for gi, (grp, j) in enumerate(((light, jobs), (heavy, hjobs))):
         if not grp:
             continue
@@ -401,6 +479,18 @@ def run(prop, a, seed, scratch, t_start):
         log(f"[{prop}]   group {gi}: {len(grp)} queries, {j} parallel")
         wall += run_kani(src, target, grp, j, tmo, mem_gb, out_json, logf=logf)
         r, e = parse_results(out_json, grp, logf)
+        rounds = 0
+        while e and rounds < 8 and repair_harness_sources(src, scratch, logf, removed_items):
+            # the harness crate does not build against the current sources: drop the items rustc rejects and retry
+            rounds += 1
+            grp = [h for h in grp if byname[h].fn not in removed_items]
+            log(f"[{prop}]   build failed in harness code; removed {len(removed_items)} item(s), retrying with {len(grp)} queries")
+            if not grp:
+                break
+            if os.path.exists(out_json):
+                os.remove(out_json)
+            wall += run_kani(src, target, grp, j, tmo, mem_gb, out_json, logf=logf)
+            r, e = parse_results(out_json, grp, logf)
         recs.update(r)
         if e and not err:
             err = e
@@ -416,6 +506,10 @@ def run(prop, a, seed, scratch, t_start):
     viols, known_hits, incon, other_notes = [], [], [], []
     known = load_known()
     nontrivial = 0
+    dropped = [h for h in names if byname[h].fn in removed_items or h not in recs]
+    for h in dropped:
+        incon.append(f"{h}: harness does not compile against the current sources (an internal signature it calls changed): not decided")
+    names = [h for h in names if h not in dropped]
     for h in names:
         r = recs[h]
         v, inc, cs, cu = classify(r, byname[h].required, byname[h].unwind_tag)
